@@ -126,6 +126,14 @@ class World:
             got = [self.ev(A, "(reader-of-r)"), self.ev(A, "(reader-of-d)")]
             if got != [v, v]:
                 return ("stale-read-through-closure", got, v)
+        elif op == 6:   # def evaluated inside a function body, when the function is called
+            self.ev(A, f"(def set-x! (fn [] (def x {v}) nil))")
+            self.ev(A, "(set-x!)"); self.model[(A, "x")] = v
+        elif op == 7:   # the same name def'd in a function and then in a function nested inside it; the nested def runs last
+            self.ev(A, f"(def install! (fn [] (def y {v + 100}) (fn [] (def y {v}) nil)))")
+            self.ev(A, "((install!))"); self.model[(A, "y")] = v
+        elif op == 8:   # def of a closed-over local inside let / do
+            self.ev(A, f"(let [z {v}] (do (def x z) nil))"); self.model[(A, "x")] = v
         return self.check()
     def check(self):
         A, B = self.A, self.B
@@ -162,7 +170,7 @@ if __name__ == "__main__":
     bad = []
     n = 0
     for tag, opts in modes.items():
-        for o0, v0, o1, v1 in _it.product(range(6), (1, 2), range(6), (3, 4)):
+        for o0, v0, o1, v1 in _it.product(range(9), (1,), range(9), (3, 4)):
             n += 1
             w = World(opts)
             r = w.check()
@@ -195,7 +203,8 @@ def run(rep, tier, seed):
         ok, line = env.replay_reproduces(path, timeout=900)
         r_ = Result("histories/def-alias-refer-alter-var-root (exhaustive concrete run)", INCONCLUSIVE, engine="concrete enumeration (not solver-decided)",
                     secs=_t.time() - t0,
-                    bound="all 144 two-step histories of def x / def y / def ^:redef r / alter-var-root (redef, dynamic) / redefine-behind-a-closure x 3 option sets; "
+                    bound="all 162 two-step histories of def x / def y / def ^:redef r / alter-var-root (redef, dynamic) / redefine-behind-a-closure / def inside a called fn / "
+                          "def in an fn and again in an fn nested in it / def of a let local, x 3 option sets; "
                           "after each step every spelling is read: bare, fully qualified, alias, refer, var, shadowing local, thread binding; private Var unreachable; "
                           "def-only histories agree between direct linking and var indirection")
         if ok:
